@@ -343,24 +343,124 @@ Lemma wls_fold_upd_e (f : ehandle -> ehandle) l : forall s,
   wls (fold_left (fun s h => upd_e s h f) l s) = wls s.
 Proof. induction l as [|h l IH]; intros s; cbn [fold_left]; auto. rewrite IH. reflexivity. Qed.
 
+(* ---------------- generic: an invariant through a whole script, fork included ---------------- *)
+Lemma irun_p_inv (P : ist -> Prop) (E : ievent -> Prop) :
+  (forall s o, P s -> P (fst (iapi s o)) /\ Forall E (snd (iapi s o))) ->
+  (forall s evs beh cnt, P s -> P (fst (fst (dispatch s evs beh cnt))) /\
+                                Forall E (snd (fst (dispatch s evs beh cnt)))) ->
+  (forall s, P s -> P (fst (run_eclosing s)) /\ Forall E (snd (run_eclosing s))) ->
+  (forall s wds, P s -> P (fst (inotify_fork s wds)) /\ Forall E (snd (inotify_fork s wds))) ->
+  E IChildExit ->
+  forall os par s beh cnt,
+  match par with Some (sp, _) => P sp | None => True end -> P s ->
+  P (fst (irun_p par s os beh cnt)) /\ Forall E (snd (irun_p par s os beh cnt)).
+Proof.
+  intros Pa Pd Pc Pf Ee.
+  induction os as [|o os IH]; intros par s beh cnt Hp H; [split; [exact H|constructor]|].
+  assert (Api : forall o', (let '(s1, e1) := iapi s o' in
+                            let '(s2, e2) := irun_p par s1 os beh cnt in (s2, e1 ++ e2)) =
+                           (let '(s1, e1) := iapi s o' in
+                            let '(s2, e2) := irun_p par s1 os beh cnt in (s2, e1 ++ e2)) ->
+                     P (fst (let '(s1, e1) := iapi s o' in
+                             let '(s2, e2) := irun_p par s1 os beh cnt in (s2, e1 ++ e2))) /\
+                     Forall E (snd (let '(s1, e1) := iapi s o' in
+                                    let '(s2, e2) := irun_p par s1 os beh cnt in (s2, e1 ++ e2)))).
+  { intros o' _. destruct (Pa s o' H) as [X XO]. destruct (iapi s o') as [s1 e1]. cbn [fst snd] in *.
+    destruct (IH par s1 beh cnt Hp X) as [Y YO]. destruct (irun_p par s1 os beh cnt) as [s2 e2].
+    cbn [fst snd] in *. split; auto. apply Forall_app. auto. }
+  destruct o; cbn [irun_p]; try (apply Api; reflexivity).
+  - destruct (Pd s evs beh cnt H) as [X XO].
+    destruct (dispatch s evs beh cnt) as [[s1 e1] n1]. cbn [fst snd] in *.
+    destruct (Pc s1 X) as [X2 XO2]. destruct (run_eclosing s1) as [s2 e2]. cbn [fst snd] in *.
+    destruct (IH par s2 beh n1 Hp X2) as [Y YO]. destruct (irun_p par s2 os beh n1) as [s3 e3].
+    cbn [fst snd] in *. split; auto. apply Forall_app. split; auto. apply Forall_app. auto.
+  - destruct par as [[sp np]|].
+    + apply IH; auto.
+    + destruct (Pf s wds H) as [X XO]. destruct (inotify_fork s wds) as [sc ec]. cbn [fst snd] in *.
+      destruct (IH (Some (s, cnt)) sc beh (cnt + child_cb_offset)%nat H X) as [Y YO].
+      destruct (irun_p (Some (s, cnt)) sc os beh (cnt + child_cb_offset)) as [s3 e3].
+      cbn [fst snd] in *. split; auto. apply Forall_app. auto.
+  - destruct par as [[sp np]|].
+    + destruct (IH None sp beh np I Hp) as [Y YO]. destruct (irun_p None sp os beh np) as [s3 e3].
+      cbn [fst snd] in *. split; auto.
+    + apply IH; auto.
+Qed.
+
+(* uv__inotify_fork is made of the operations below: whatever they keep, it keeps *)
+Lemma len_ehs_maybe_free s wd : length (ehs (fst (maybe_free s wd))) = length (ehs s).
+Proof.
+  unfold maybe_free. destruct (find_w (wls s) wd) as [w|]; auto.
+  destruct (negb (w_iter w) && _); reflexivity.
+Qed.
+
+Lemma len_ehs_ev_stop s h : length (ehs (fst (ev_stop s h))) = length (ehs s).
+Proof.
+  unfold ev_stop. destruct (negb (e_active (gete s h))); auto.
+  rewrite len_ehs_maybe_free. cbn [ehs set_wls upd_e set_ehs]. apply upd_length.
+Qed.
+
+Lemma len_ehs_ev_start s h cb b wd : length (ehs (fst (ev_start s h cb b wd))) = length (ehs s).
+Proof.
+  unfold ev_start. destruct (e_active (gete s h)); auto. destruct (wd <? 0); auto. cbn [fst].
+  cbn [ehs upd_e set_ehs set_wls]. rewrite upd_length.
+  destruct (find_w (wls s) wd); reflexivity.
+Qed.
+
+Lemma inotify_fork_inv (P : ist -> Prop) (Q : nat -> Prop) :
+  (forall s wd, P s -> P (set_iter s wd true)) ->
+  (forall s h, P s -> P (fst (ev_stop s h))) ->
+  (forall s wd, P s -> P (fst (maybe_free (set_iter s wd false) wd))) ->
+  (forall s h cb b wd, Q h -> P s -> P (fst (ev_start s h cb b wd))) ->
+  forall s wds, (forall h b, In (h, b) (fork_tmp s) -> Q h) -> P s -> P (fst (inotify_fork s wds)).
+Proof.
+  intros Pi Ps Pm Pst s wds HQ H. unfold inotify_fork.
+  assert (A : forall l acc, P (fst acc) -> P (fst (fold_left fork_list l acc))).
+  { induction l as [|w l IH]; intros [s0 e0] H0; cbn [fold_left]; auto.
+    apply IH. unfold fork_list. cbn [fst] in H0.
+    assert (B : forall hl acc, P (fst acc) ->
+                P (fst (fold_left (fun acc h => let '(s0, e0) := acc in let '(s1, e1) := ev_stop s0 h in
+                                                (s1, e0 ++ e1)) hl acc))).
+    { induction hl as [|h hl IHh]; intros [s1 e1] H1; cbn [fold_left]; auto.
+      apply IHh. cbn [fst] in H1. pose proof (Ps s1 h H1) as X. destruct (ev_stop s1 h). exact X. }
+    pose proof (B (w_hs w) (set_iter s0 (w_wd w) true, []) (Pi _ _ H0)) as X.
+    unfold stop_all. destruct (fold_left _ (w_hs w) (set_iter s0 (w_wd w) true, [])) as [s1 e1].
+    cbn [fst] in X. pose proof (Pm s1 (w_wd w) X) as Y.
+    destruct (maybe_free (set_iter s1 (w_wd w) false) (w_wd w)) as [s2 e2]. exact Y. }
+  pose proof (A (sort_w (wls s)) (s, []) H) as X.
+  destruct (fold_left fork_list (sort_w (wls s)) (s, [])) as [s1 e1]. cbn [fst] in X.
+  assert (C : forall tmp wl s0, (forall h b, In (h, b) tmp -> Q h) -> P s0 -> P (fst (restart tmp wl s0))).
+  { induction tmp as [|[h b] tmp IH]; intros wl s0 Hq H0; cbn [restart]; auto.
+    pose proof (Pst s0 h (e_cb (gete s0 h)) b (match wl with w :: _ => w | [] => -9 end)
+                    (Hq h b (or_introl eq_refl)) H0) as Y.
+    destruct (ev_start s0 h (e_cb (gete s0 h)) b _) as [s' r]. cbn [fst] in Y.
+    destruct (r =? 0); auto. apply IH; auto. intros h' b' I. apply (Hq h' b'). right. exact I. }
+  pose proof (C (fork_tmp s) wds s1 HQ X) as Y.
+  destruct (restart (fork_tmp s) wds s1) as [s2 r]. exact Y.
+Qed.
+
+Lemma NoEmpty_fork s wds : NoEmpty s -> NoEmpty (fst (inotify_fork s wds)).
+Proof.
+  apply (inotify_fork_inv NoEmpty (fun _ => True)); auto.
+  - intros s0 wd H. unfold set_iter. apply NoEmpty_upd_w; auto. cbn. discriminate.
+  - intros s0 h H. apply NoEmpty_ev_stop; auto.
+  - intros s0 wd [ND H]. apply NoEmpty_maybe_free; unfold set_iter; cbn [wls set_wls].
+    + rewrite map_upd_w; auto.
+    + intros wd' w' N Fw' Iw'. rewrite find_upd_w in Fw' by auto.
+      destruct (Z.eqb_spec wd' wd); [lia|]. eapply H; eauto.
+  - intros s0 h cb b wd _ H. apply NoEmpty_ev_start; auto.
+Qed.
+
 (* in every state reached by any script (any events, any callback behaviour):
    no list outside an iteration is empty, and the descriptors are unique *)
 Theorem list_freed_when_empty : forall os s beh cnt, NoEmpty s -> NoEmpty (fst (irun s os beh cnt)).
 Proof.
-  induction os as [|o os IH]; intros s beh cnt H; [exact H|].
-  destruct o; cbn [irun].
-  5:{ pose proof (NoEmpty_dispatch evs s beh cnt H) as X.
-      destruct (dispatch s evs beh cnt) as [[s1 e1] n1]. cbn [fst] in X.
-      unfold run_eclosing.
-      set (s2 := set_eclosing _ []).
-      assert (X2 : NoEmpty s2).
-      { unfold s2, NoEmpty. cbn [wls set_eclosing]. rewrite wls_fold_upd_e. exact X. }
-      pose proof (IH s2 beh n1 X2) as Y. destruct (irun s2 os beh n1); exact Y. }
-  all: match goal with
-       | |- context [iapi ?s0 ?o] =>
-           pose proof (NoEmpty_iapi s0 o H) as X; destruct (iapi s0 o) as [s1 e1]; cbn [fst] in X;
-           pose proof (IH s1 beh cnt X) as Y; destruct (irun s1 os beh cnt); exact Y
-       end.
+  intros os s beh cnt H. unfold irun.
+  apply (irun_p_inv NoEmpty (fun _ => True)); auto.
+  - intros s0 o H0. split; [apply NoEmpty_iapi; auto|apply Forall_forall; auto].
+  - intros s0 evs b c H0. split; [apply NoEmpty_dispatch; auto|apply Forall_forall; auto].
+  - intros s0 H0. split; [|apply Forall_forall; auto]. unfold run_eclosing. cbn [fst].
+    unfold NoEmpty. cbn [wls set_eclosing]. rewrite wls_fold_upd_e. exact H0.
+  - intros s0 wds H0. split; [apply NoEmpty_fork; auto|apply Forall_forall; auto].
 Qed.
 
 (* ------------------------------------------------------------------ *)
@@ -692,7 +792,7 @@ Lemma iapis_okI os : forall s, Forall okI (snd (iapis s os)).
 Proof.
   induction os as [|o os IH]; intros s; cbn [iapis]; [constructor|].
   assert (A : Forall okI (snd (iapi s o))).
-  { destruct o; cbn [iapi]; try constructor.
+  { destruct o; cbn [iapi]; try (cbn; repeat constructor; fail).
     - destruct (ivalid s h && negb (e_closing (gete s h))); [|constructor].
       destruct (ev_start s h cb base wd). cbn. repeat constructor.
     - destruct (ivalid s h && negb (e_closed (gete s h))); [|constructor].
@@ -804,28 +904,100 @@ Proof. split; [constructor|]. split; cbn; intros; discriminate. Qed.
 (* C17_no_cb_for_stopped: in the trace of every script -- any kernel answers, any events, any API
    calls made from inside the callbacks -- every fs_event callback goes to a handle that is
    active at that moment ([ICb]'s last field is that ghost) *)
+Lemma in_insert_w w x l : In x (insert_w w l) <-> x = w \/ In x l.
+Proof.
+  induction l as [|y l IH]; cbn [insert_w]; [cbn; intuition|].
+  destruct (w_wd w <? w_wd y); cbn [In]; [intuition|]. rewrite IH. intuition.
+Qed.
+
+Lemma in_sort_w x l : In x (sort_w l) <-> In x l.
+Proof.
+  induction l as [|y l IH]; cbn [sort_w fold_right]; [tauto|].
+  fold (sort_w l). rewrite in_insert_w, IH. cbn. intuition.
+Qed.
+
+Lemma find_in_nodup l w : NoDup (map w_wd l) -> In w l -> find_w l (w_wd w) = Some w.
+Proof.
+  induction l as [|x l IH]; cbn [map find_w]; intros ND I; [destruct I|].
+  inversion ND as [|a b Hn Hd]; subst. destruct I as [->|I]; [rewrite Z.eqb_refl; reflexivity|].
+  destruct (Z.eqb_spec (w_wd x) (w_wd w)) as [E|E]; [|apply IH; auto].
+  exfalso. apply Hn. rewrite E. apply in_map. exact I.
+Qed.
+
+Lemma fork_tmp_members s h b :
+  Mem s -> In (h, b) (fork_tmp s) -> (h < length (ehs s))%nat.
+Proof.
+  intros (ND & M & _) I. unfold fork_tmp in I. apply in_flat_map in I. destruct I as (w & Iw & Ih).
+  apply (proj1 (in_sort_w _ _)) in Iw. apply in_map_iff in Ih. destruct Ih as (h0 & E & Ih). injection E as <- _.
+  apply active_lt. apply (M (w_wd w) w h0 (find_in_nodup _ _ ND Iw)). left. exact Ih.
+Qed.
+
+Lemma Mem_fork s wds : Mem s -> Mem (fst (inotify_fork s wds)).
+Proof.
+  intros H.
+  pose proof (inotify_fork_inv (fun s' => Mem s' /\ length (ehs s') = length (ehs s))
+                               (fun h => (h < length (ehs s))%nat)) as X.
+  apply X; auto.
+  - intros s0 wd [M L]. split; [|exact L]. unfold set_iter. apply Mem_upd_w_same_members; auto.
+  - intros s0 h [M L]. split; [apply Mem_ev_stop; auto|rewrite len_ehs_ev_stop; exact L].
+  - intros s0 wd [M L]. split; [|rewrite len_ehs_maybe_free; exact L].
+    apply Mem_maybe_free. unfold set_iter. apply Mem_upd_w_same_members; auto.
+  - intros s0 h cb b wd Q [M L]. split; [|rewrite len_ehs_ev_start; exact L].
+    apply Mem_ev_start; auto. rewrite L. exact Q.
+  - intros h b I. eapply fork_tmp_members; eauto.
+Qed.
+
+Lemma maybe_free_okI s wd : Forall okI (snd (maybe_free s wd)).
+Proof.
+  unfold maybe_free. destruct (find_w (wls s) wd) as [wz|]; [|constructor].
+  destruct (negb (w_iter wz) && _); cbn; repeat constructor.
+Qed.
+
+Lemma ev_stop_okI s h : Forall okI (snd (ev_stop s h)).
+Proof. unfold ev_stop. destruct (negb (e_active (gete s h))); [constructor|apply maybe_free_okI]. Qed.
+
+Lemma fork_okI s wds : Forall okI (snd (inotify_fork s wds)).
+Proof.
+  unfold inotify_fork.
+  assert (A : forall l acc, Forall okI (snd acc) -> Forall okI (snd (fold_left fork_list l acc))).
+  { induction l as [|w l IH]; intros [s0 e0] H0; cbn [fold_left]; auto.
+    apply IH. unfold fork_list. cbn [snd] in H0.
+    assert (B : forall hl acc, Forall okI (snd acc) ->
+                Forall okI (snd (fold_left (fun acc h => let '(s0, e0) := acc in let '(s1, e1) := ev_stop s0 h in
+                                                         (s1, e0 ++ e1)) hl acc))).
+    { induction hl as [|h hl IHh]; intros [s1 e1] H1; cbn [fold_left]; auto.
+      apply IHh. cbn [snd] in H1. pose proof (ev_stop_okI s1 h) as X. destruct (ev_stop s1 h).
+      cbn [snd] in *. apply Forall_app. auto. }
+    pose proof (B (w_hs w) (set_iter s0 (w_wd w) true, []) (Forall_nil _)) as X.
+    unfold stop_all. destruct (fold_left _ (w_hs w) (set_iter s0 (w_wd w) true, [])) as [s1 e1].
+    cbn [snd] in X. pose proof (maybe_free_okI (set_iter s1 (w_wd w) false) (w_wd w)) as Y.
+    destruct (maybe_free (set_iter s1 (w_wd w) false) (w_wd w)) as [s2 e2]. cbn [snd] in *.
+    apply Forall_app. split; auto. apply Forall_app. auto. }
+  pose proof (A (sort_w (wls s)) (s, []) (Forall_nil _)) as X.
+  destruct (fold_left fork_list (sort_w (wls s)) (s, [])) as [s1 e1]. cbn [snd] in X.
+  destruct (restart (fork_tmp s) wds s1) as [s2 r]. cbn [snd]. apply Forall_app. split; auto.
+  repeat constructor.
+Qed.
+
+Lemma Mem_okI_irun_p os par s beh cnt :
+  match par with Some (sp, _) => Mem sp | None => True end -> Mem s ->
+  Mem (fst (irun_p par s os beh cnt)) /\ Forall okI (snd (irun_p par s os beh cnt)).
+Proof.
+  apply (irun_p_inv Mem okI).
+  - intros s0 o H0. split; [apply Mem_iapi; auto|].
+    pose proof (iapis_okI [o] s0) as X. cbn [iapis] in X. destruct (iapi s0 o). cbn [snd] in *.
+    rewrite app_nil_r in X. exact X.
+  - intros s0 evs b c H0. apply dispatch_Mem; auto.
+  - intros s0 H0. unfold run_eclosing. cbn [fst snd]. split.
+    + exact (Mem_fold_closed (eclosing s0) s0 H0).
+    + apply Forall_forall. intros e I. apply in_map_iff in I. destruct I as (h & <- & _). exact I.
+  - intros s0 wds H0. split; [apply Mem_fork; auto|apply fork_okI].
+  - exact I.
+Qed.
+
 Theorem no_cb_for_stopped : forall os s beh cnt,
   Mem s -> Forall okI (snd (irun s os beh cnt)).
-Proof.
-  induction os as [|o os IH]; intros s beh cnt H; [constructor|].
-  destruct o; cbn [irun].
-  5:{ pose proof (dispatch_Mem evs s beh cnt H) as [X XO].
-      destruct (dispatch s evs beh cnt) as [[s1 e1] n1]. cbn [fst snd] in *.
-      unfold run_eclosing.
-      set (s2 := set_eclosing _ []).
-      assert (X2 : Mem s2).
-      { exact (Mem_fold_closed (eclosing s1) s1 X). }
-      pose proof (IH s2 beh n1 X2) as Y. destruct (irun s2 os beh n1) as [s3 e3]. cbn [snd] in *.
-      apply Forall_app. split; auto. apply Forall_app. split; auto.
-      apply Forall_forall. intros e I. apply in_map_iff in I. destruct I as (h & <- & _). exact I. }
-  all: match goal with
-       | |- context [iapi ?s0 ?o] =>
-           pose proof (Mem_iapi s0 o H) as X; pose proof (iapis_okI [o] s0) as XO; cbn [iapis] in XO;
-           destruct (iapi s0 o) as [s1 e1]; cbn [fst snd] in *; rewrite app_nil_r in XO;
-           pose proof (IH s1 beh cnt X) as Y; destruct (irun s1 os beh cnt) as [s2 e2];
-           cbn [snd] in *; apply Forall_app; auto
-       end.
-Qed.
+Proof. intros os s beh cnt H. unfold irun. apply Mem_okI_irun_p; auto. Qed.
 
 (* ------------------------------------------------------------------ *)
 (* C17_event_reaches_all with API calls inside the callbacks           *)
@@ -966,6 +1138,9 @@ Proof.
       rewrite (G1 (Ne E)). unfold s0. rewrite gete_upd_e.
       destruct (Nat.eqb_spec h0 h); [exfalso; apply (Ne E); auto|reflexivity].
   - cbn [fst]. auto.
+  - cbn [fst]. auto.
+  - cbn [fst]. auto.
+  - cbn [fst]. auto.
 Qed.
 
 Lemma Tr_iapis wd h n inl os : forall s,
@@ -1085,17 +1260,316 @@ Proof.
 Qed.
 
 Theorem Mem_irun : forall os s beh cnt, Mem s -> Mem (fst (irun s os beh cnt)).
+Proof. intros os s beh cnt H. unfold irun. apply Mem_okI_irun_p; auto. Qed.
+
+(* ------------------------------------------------------------------ *)
+(* uv__inotify_fork: the handles that were watching go on watching the same paths *)
+(* ------------------------------------------------------------------ *)
+(* outside uv__inotify_read no list is being iterated and no local queue is in use *)
+Definition Quiet (s : ist) : Prop :=
+  forall wd w, find_w (wls s) wd = Some w -> w_local w = [] /\ w_iter w = false.
+
+Lemma gete_maybe_free' s wd h : gete (fst (maybe_free s wd)) h = gete s h.
+Proof. apply gete_maybe_free. Qed.
+
+(* stopping a member of the list that is being iterated *)
+Lemma stop_member t wd wt h :
+  Mem t -> find_w (wls t) wd = Some wt -> w_iter wt = true -> In h (w_hs wt) ->
+  let t' := fst (ev_stop t h) in
+  find_w (wls t') wd = Some (mkW (w_wd wt) (w_base wt) (rm_nat h (w_hs wt)) (rm_nat h (w_local wt)) true) /\
+  (forall wd', wd' <> wd -> find_w (wls t') wd' = find_w (wls t) wd') /\
+  (forall h', h' <> h -> gete t' h' = gete t h') /\
+  e_active (gete t' h) = false /\ e_cb (gete t' h) = e_cb (gete t h) /\
+  length (ehs t') = length (ehs t).
 Proof.
-  induction os as [|o os IH]; intros s beh cnt H; [exact H|].
-  destruct o; cbn [irun].
-  5:{ pose proof (dispatch_Mem evs s beh cnt H) as [X _].
-      destruct (dispatch s evs beh cnt) as [[s1 e1] n1]. cbn [fst] in *.
-      unfold run_eclosing. set (s2 := set_eclosing _ []).
-      assert (X2 : Mem s2) by exact (Mem_fold_closed (eclosing s1) s1 X).
-      pose proof (IH s2 beh n1 X2) as Y. destruct (irun s2 os beh n1) as [s3 e3]. exact Y. }
-  all: match goal with
-       | |- context [iapi ?s0 ?o] =>
-           pose proof (Mem_iapi s0 o H) as X; destruct (iapi s0 o) as [s1 e1]; cbn [fst] in X;
-           pose proof (IH s1 beh cnt X) as Y; destruct (irun s1 os beh cnt) as [s2 e2]; exact Y
-       end.
+  intros M Fw Iw Ih. destruct (proj1 (proj2 M) wd wt h Fw (or_introl Ih)) as [A E].
+  cbv zeta. unfold ev_stop. rewrite A, E. cbn [negb].
+  set (g := fun w => mkW (w_wd w) (w_base w) (rm_nat h (w_hs w)) (rm_nat h (w_local w)) (w_iter w)).
+  set (t1 := upd_e t h _). set (t2 := set_wls t1 _).
+  assert (F2 : find_w (wls t2) wd = Some (g wt)).
+  { unfold t2. cbn [wls set_wls]. change (wls t1) with (wls t). rewrite find_upd_w by auto.
+    rewrite Z.eqb_refl, Fw. reflexivity. }
+  assert (NF : maybe_free t2 wd = (t2, [])).
+  { eapply maybe_free_respects_iterating; [exact F2|]. cbn. exact Iw. }
+  rewrite NF. cbn [fst].
+  split; [rewrite F2; unfold g; rewrite Iw; reflexivity|].
+  split; [intros wd' N; unfold t2; cbn [wls set_wls]; change (wls t1) with (wls t);
+          rewrite find_upd_w by auto; destruct (Z.eqb_spec wd' wd); [lia|reflexivity]|].
+  assert (Lh : (h < length (ehs t))%nat) by (apply active_lt; exact A).
+  split; [intros h' N; change (gete t2 h') with (gete t1 h'); unfold t1; rewrite gete_upd_e;
+          destruct (Nat.eqb_spec h h'); [congruence|reflexivity]|].
+  change (gete t2 h) with (gete t1 h). unfold t1. rewrite gete_upd_e, Nat.eqb_refl. cbn [andb].
+  destruct (Nat.ltb_spec h (length (ehs t))); [|lia]. cbn.
+  repeat split; auto. cbn [ehs t2 set_wls t1 upd_e set_ehs]. apply upd_length.
+Qed.
+
+Fixpoint rm_all (hl : list nat) (l : list nat) : list nat :=
+  match hl with [] => l | h :: hl' => rm_all hl' (rm_nat h l) end.
+
+Lemma in_rm_all hl : forall l x, In x (rm_all hl l) <-> In x l /\ ~ In x hl.
+Proof.
+  induction hl as [|h hl IH]; intros l x; cbn [rm_all]; [cbn; tauto|].
+  rewrite IH, in_rm_nat. cbn. intuition.
+Qed.
+
+Lemma rm_all_self l : rm_all l l = [].
+Proof.
+  destruct (rm_all l l) as [|x r] eqn:E; auto. exfalso.
+  assert (I : In x (rm_all l l)) by (rewrite E; left; reflexivity).
+  apply in_rm_all in I. tauto.
+Qed.
+
+(* stopping every handle of one list, then the deferred free: the list is gone, the others are as they were *)
+Lemma stop_all_members hl : forall t wt wd,
+  Mem t -> find_w (wls t) wd = Some wt -> w_iter wt = true -> w_wd wt = wd ->
+  NoDup hl -> incl hl (w_hs wt) ->
+  let t' := fst (stop_all t hl) in
+  Mem t' /\
+  find_w (wls t') wd = Some (mkW wd (w_base wt) (rm_all hl (w_hs wt)) (rm_all hl (w_local wt)) true) /\
+  (forall wd', wd' <> wd -> find_w (wls t') wd' = find_w (wls t) wd') /\
+  (forall h', ~ In h' hl -> gete t' h' = gete t h') /\
+  (forall h', In h' hl -> e_active (gete t' h') = false /\ e_cb (gete t' h') = e_cb (gete t h')) /\
+  length (ehs t') = length (ehs t).
+Proof.
+  unfold stop_all.
+  assert (G : forall hl t e0, fst (fold_left (fun acc h => let '(s0, e0) := acc in let '(s1, e1) := ev_stop s0 h in
+                                               (s1, e0 ++ e1)) hl (t, e0)) =
+                              fold_left (fun s h => fst (ev_stop s h)) hl t).
+  { induction hl0 as [|h hl0 IH]; intros t e0; cbn [fold_left]; auto.
+    destruct (ev_stop t h) as [s1 e1] eqn:E. rewrite IH. cbn [fst]. reflexivity. }
+  induction hl as [|h hl IH]; intros t wt wd M Fw Iw Ew ND Inc; cbv zeta; rewrite G; cbn [fold_left rm_all].
+  - split; auto. split; [rewrite Fw; destruct wt; cbn in *; subst; reflexivity|].
+    split; [auto|]. split; [auto|]. split; [intros x []|reflexivity].
+  - inversion ND as [|a b Hn Hd]; subst.
+    assert (Ih : In h (w_hs wt)) by (apply Inc; left; reflexivity).
+    destruct (stop_member t (w_wd wt) wt h M Fw Iw Ih) as (S1 & S2 & S3 & S4 & S5 & S6).
+    set (t1 := fst (ev_stop t h)) in *.
+    assert (M1 : Mem t1) by (apply Mem_ev_stop; exact M).
+    set (wt1 := mkW (w_wd wt) (w_base wt) (rm_nat h (w_hs wt)) (rm_nat h (w_local wt)) true) in *.
+    assert (Inc1 : incl hl (w_hs wt1)).
+    { intros x I. cbn [wt1 w_hs]. apply in_rm_nat. split; [apply Inc; right; exact I|]. intros ->. auto. }
+    pose proof (IH t1 wt1 (w_wd wt) M1 S1 eq_refl eq_refl Hd Inc1) as X. cbv zeta in X. rewrite G in X.
+    destruct X as (X1 & X2 & X3 & X4 & X5 & X6).
+    split; [exact X1|]. split; [exact X2|]. split; [intros wd' N; rewrite X3, S2; auto|].
+    split.
+    + intros h' N. rewrite X4 by (intros I; apply N; right; exact I). apply S3. intros ->. apply N. left; auto.
+    + split; [|congruence].
+      intros h' [<-|I].
+      * rewrite X4 by exact Hn. split; auto.
+      * destruct (X5 h' I) as [A B]. split; auto. rewrite B. rewrite S3; auto. intros ->. auto.
+Qed.
+
+Lemma rm_all_nil hl : rm_all hl [] = [].
+Proof. induction hl; cbn; auto. Qed.
+
+Lemma fork_list_spec t e w :
+  Mem t -> find_w (wls t) (w_wd w) = Some w -> w_local w = [] ->
+  let t2 := fst (fork_list (t, e) w) in
+  Mem t2 /\ find_w (wls t2) (w_wd w) = None /\
+  (forall wd', wd' <> w_wd w -> find_w (wls t2) wd' = find_w (wls t) wd') /\
+  (forall h, ~ In h (w_hs w) -> gete t2 h = gete t h) /\
+  (forall h, In h (w_hs w) -> e_active (gete t2 h) = false /\ e_cb (gete t2 h) = e_cb (gete t h)) /\
+  length (ehs t2) = length (ehs t).
+Proof.
+  intros M Fw Lw. cbv zeta. unfold fork_list.
+  set (wd := w_wd w).
+  set (t0 := set_iter t wd true).
+  assert (M0 : Mem t0) by (unfold t0, set_iter; apply Mem_upd_w_same_members; auto).
+  set (w0 := mkW (w_wd w) (w_base w) (w_hs w) (w_local w) true).
+  assert (F0 : find_w (wls t0) wd = Some w0).
+  { unfold t0, set_iter. cbn [wls set_wls]. rewrite find_upd_w by auto. unfold wd. rewrite Z.eqb_refl, Fw. reflexivity. }
+  assert (O0 : forall wd', wd' <> wd -> find_w (wls t0) wd' = find_w (wls t) wd').
+  { intros wd' N. unfold t0, set_iter. cbn [wls set_wls]. rewrite find_upd_w by auto.
+    destruct (Z.eqb_spec wd' wd); [lia|reflexivity]. }
+  assert (NDh : NoDup (w_hs w)).
+  { destruct M as (_ & _ & NL). pose proof (NL wd w Fw) as X. apply NoDup_app_l in X. exact X. }
+  pose proof (stop_all_members (w_hs w) t0 w0 wd M0 F0 eq_refl eq_refl NDh (incl_refl _)) as X.
+  cbv zeta in X. destruct (stop_all t0 (w_hs w)) as [t1 e1]. cbn [fst] in X.
+  destruct X as (M1 & F1 & O1 & G1 & A1 & L1).
+  cbn [w0 w_hs w_local w_base] in F1. rewrite rm_all_self, Lw, rm_all_nil in F1.
+  set (t1' := set_iter t1 wd false).
+  assert (M1' : Mem t1') by (unfold t1', set_iter; apply Mem_upd_w_same_members; auto).
+  assert (F1' : find_w (wls t1') wd = Some (mkW wd (w_base w) [] [] false)).
+  { unfold t1', set_iter. cbn [wls set_wls]. rewrite find_upd_w by auto. rewrite Z.eqb_refl, F1. reflexivity. }
+  assert (MF : maybe_free t1' wd = (set_wls t1' (del_w (wls t1') wd), [IRm wd])).
+  { unfold maybe_free. rewrite F1'. reflexivity. }
+  rewrite MF. cbn [fst].
+  destruct (del_w_keys (wls t1') wd (proj1 M1')) as (_ & _ & Dn).
+  split.
+  - pose proof (Mem_maybe_free t1' wd M1') as Y. rewrite MF in Y. exact Y.
+  - split; [cbn [wls set_wls]; exact Dn|].
+    split.
+    + intros wd' N. cbn [wls set_wls]. rewrite find_del_other by auto.
+      unfold t1', set_iter. cbn [wls set_wls]. rewrite find_upd_w by auto.
+      destruct (Z.eqb_spec wd' wd); [lia|]. rewrite O1, O0; auto.
+    + split; [intros h N; change (gete (set_wls t1' (del_w (wls t1') wd)) h) with (gete t1 h);
+              rewrite G1; auto|].
+      split; [intros h I; change (gete (set_wls t1' (del_w (wls t1') wd)) h) with (gete t1 h);
+              destruct (A1 h I) as [A B]; split; auto|].
+      exact L1.
+Qed.
+
+Definition members (L : list wlist) : list nat := flat_map w_hs L.
+
+Lemma fork_lists_spec L : forall t e,
+  Mem t -> NoDup (map w_wd L) ->
+  (forall w, In w L -> find_w (wls t) (w_wd w) = Some w /\ w_local w = []) ->
+  let t2 := fst (fold_left fork_list L (t, e)) in
+  Mem t2 /\ (forall w, In w L -> find_w (wls t2) (w_wd w) = None) /\
+  (forall wd', ~ In wd' (map w_wd L) -> find_w (wls t2) wd' = find_w (wls t) wd') /\
+  (forall h, ~ In h (members L) -> gete t2 h = gete t h) /\
+  (forall h, In h (members L) -> e_active (gete t2 h) = false /\ e_cb (gete t2 h) = e_cb (gete t h)) /\
+  length (ehs t2) = length (ehs t).
+Proof.
+  induction L as [|w L IH]; intros t e M ND HL; cbv zeta; cbn [fold_left].
+  - cbn [fst members flat_map map]. split; [exact M|]. split; [intros w []|]. split; [auto|].
+    split; [auto|]. split; [intros h []|reflexivity].
+  - inversion ND as [|a b Hn Hd]; subst.
+    destruct (HL w (or_introl eq_refl)) as [Fw Lw].
+    pose proof (fork_list_spec t e w M Fw Lw) as X. cbv zeta in X.
+    destruct (fork_list (t, e) w) as [t1 e1]. cbn [fst] in X.
+    destruct X as (M1 & F1 & O1 & G1 & A1 & L1).
+    assert (HL1 : forall w', In w' L -> find_w (wls t1) (w_wd w') = Some w' /\ w_local w' = []).
+    { intros w' I. destruct (HL w' (or_intror I)) as [A B]. split; auto. rewrite O1; auto.
+      intros E. apply Hn. rewrite <- E. apply in_map. exact I. }
+    (* members of different lists are different handles *)
+    assert (Disj : forall h, In h (w_hs w) -> ~ In h (members L)).
+    { intros h Ih Im. unfold members in Im. apply in_flat_map in Im. destruct Im as (w' & Iw' & Ih').
+      destruct (HL w' (or_intror Iw')) as [Fw' _].
+      destruct (proj1 (proj2 M) _ _ h Fw (or_introl Ih)) as [_ E1].
+      destruct (proj1 (proj2 M) _ _ h Fw' (or_introl Ih')) as [_ E2].
+      apply Hn. rewrite <- E1, E2. apply in_map. exact Iw'. }
+    pose proof (IH t1 e1 M1 Hd HL1) as Y. cbv zeta in Y.
+    destruct (fold_left fork_list L (t1, e1)) as [t2 e2]. cbn [fst] in *.
+    destruct Y as (M2 & F2 & O2 & G2 & A2 & L2).
+    split; [exact M2|]. split.
+    + intros w' [<-|I]; [|apply F2; exact I]. rewrite O2; auto.
+    + split.
+      * intros wd' N. cbn [map] in N. rewrite O2 by (intros I; apply N; right; exact I).
+        apply O1. intros E. apply N. left. auto.
+      * split.
+        -- intros h N. unfold members in N. cbn [flat_map] in N. rewrite in_app_iff in N.
+           rewrite G2 by (intros I; apply N; right; exact I). apply G1. intros I. apply N. left. exact I.
+        -- split; [|congruence].
+           intros h I. unfold members in I. cbn [flat_map] in I. apply in_app_iff in I.
+           destruct I as [I|I].
+           ++ rewrite G2 by (apply Disj; exact I). apply A1. exact I.
+           ++ destruct (A2 h I) as [A B]. split; auto. rewrite B. rewrite G1; [reflexivity|].
+              intros I'. apply (Disj h I' I).
+Qed.
+
+(* a successful uv_fs_event_start *)
+Lemma ev_start_spec t h cb b v :
+  e_active (gete t h) = false -> 0 <= v -> (h < length (ehs t))%nat ->
+  let t' := fst (ev_start t h cb b v) in
+  snd (ev_start t h cb b v) = 0 /\
+  e_active (gete t' h) = true /\ e_wd (gete t' h) = v /\ e_cb (gete t' h) = cb /\
+  (forall h', h' <> h -> gete t' h' = gete t h') /\
+  (exists w', find_w (wls t') v = Some w' /\
+              w_base w' = match find_w (wls t) v with Some w0 => w_base w0 | None => b end) /\
+  (forall v', v' <> v -> find_w (wls t') v' = find_w (wls t) v') /\
+  length (ehs t') = length (ehs t).
+Proof.
+  intros A V L. cbv zeta. unfold ev_start. rewrite A.
+  destruct (Z.ltb_spec v 0) as [X|_]; [lia|]. cbn [fst snd].
+  set (t1 := match find_w (wls t) v with Some _ => t | None => _ end).
+  set (f := fun w => mkW (w_wd w) (w_base w) (w_hs w ++ [h]) (w_local w) (w_iter w)).
+  assert (E1 : ehs t1 = ehs t) by (unfold t1; destruct (find_w (wls t) v); reflexivity).
+  assert (F1 : exists w1, find_w (wls t1) v = Some w1 /\
+                          w_base w1 = match find_w (wls t) v with Some w0 => w_base w0 | None => b end).
+  { unfold t1. destruct (find_w (wls t) v) as [w0|] eqn:F0; [exists w0; auto|].
+    cbn [wls set_wls]. rewrite find_app, F0. cbn [w_wd]. rewrite Z.eqb_refl. eexists. split; reflexivity. }
+  assert (O1 : forall v', v' <> v -> find_w (wls t1) v' = find_w (wls t) v').
+  { intros v' N. unfold t1. destruct (find_w (wls t) v); auto. cbn [wls set_wls]. rewrite find_app.
+    destruct (find_w (wls t) v'); auto. cbn [w_wd]. destruct (Z.eqb_spec v v'); [lia|reflexivity]. }
+  split; [reflexivity|].
+  rewrite gete_upd_e, Nat.eqb_refl. cbn [andb ehs set_wls]. rewrite E1.
+  destruct (Nat.ltb_spec h (length (ehs t))); [|lia]. cbn [e_active e_wd e_cb].
+  split; [reflexivity|]. split; [reflexivity|]. split; [reflexivity|].
+  split.
+  - intros h' N. rewrite gete_upd_e. destruct (Nat.eqb_spec h h'); [congruence|].
+    unfold gete. cbn [ehs set_wls]. rewrite E1. reflexivity.
+  - split.
+    + destruct F1 as (w1 & F1 & B1). cbn [wls upd_e set_ehs set_wls]. rewrite find_upd_w by auto.
+      rewrite Z.eqb_refl, F1. cbn. eexists. split; [reflexivity|]. exact B1.
+    + split.
+      * intros v' N. cbn [wls upd_e set_ehs set_wls]. rewrite find_upd_w by auto.
+        destruct (Z.eqb_spec v' v); [lia|]. apply O1; auto.
+      * cbn [ehs upd_e set_ehs set_wls]. rewrite upd_length, E1. reflexivity.
+Qed.
+
+(* restarting: tmp = the handles to restart with the base name of their old list, wds = the
+   descriptors the kernel gives; equal descriptors only for equal base names (same inode) *)
+Lemma restart_spec tmp : forall wds t,
+  length wds = length tmp -> Forall (fun v => 0 <= v) wds ->
+  NoDup (map fst tmp) ->
+  (forall h b, In (h, b) tmp -> e_active (gete t h) = false /\ (h < length (ehs t))%nat) ->
+  (forall i j h1 b1 h2 b2, nth_error tmp i = Some (h1, b1) -> nth_error tmp j = Some (h2, b2) ->
+                           nth i wds 0 = nth j wds 0 -> b1 = b2) ->
+  (forall i h b w0, nth_error tmp i = Some (h, b) -> find_w (wls t) (nth i wds 0) = Some w0 -> w_base w0 = b) ->
+  let t' := fst (restart tmp wds t) in
+  snd (restart tmp wds t) = 0 /\
+  (forall h, ~ In h (map fst tmp) -> gete t' h = gete t h) /\
+  (forall i h b, nth_error tmp i = Some (h, b) ->
+     e_active (gete t' h) = true /\ e_cb (gete t' h) = e_cb (gete t h) /\
+     exists w', find_w (wls t') (e_wd (gete t' h)) = Some w' /\ w_base w' = b).
+Proof.
+  induction tmp as [|[h b] tmp IH]; intros wds t Len Pos ND Ina Cons Good; cbv zeta; cbn [restart].
+  - cbn. split; auto. split; auto. intros i h b E. destruct i; discriminate.
+  - destruct wds as [|v wds]; [discriminate|]. cbn [tl].
+    inversion Pos as [|a l Pv Pl]; subst. cbn [map fst] in ND. inversion ND as [|a l Hn Hd]; subst.
+    destruct (Ina h b (or_introl eq_refl)) as [A L].
+    destruct (ev_start_spec t h (e_cb (gete t h)) b v A Pv L) as (R & S1 & S2 & S3 & S4 & S5 & S6 & S7).
+    destruct (ev_start t h (e_cb (gete t h)) b v) as [t1 r] eqn:Es. cbn [fst snd] in *. subst r.
+    cbn [Z.eqb].
+    assert (Ina1 : forall h' b', In (h', b') tmp -> e_active (gete t1 h') = false /\ (h' < length (ehs t1))%nat).
+    { intros h' b' I. assert (N : h' <> h) by (intros ->; apply Hn; apply in_map_iff; exists (h, b'); auto).
+      rewrite S4 by auto. rewrite S7. apply (Ina h' b'). right. exact I. }
+    assert (Cons1 : forall i j h1 b1 h2 b2, nth_error tmp i = Some (h1, b1) -> nth_error tmp j = Some (h2, b2) ->
+                    nth i wds 0 = nth j wds 0 -> b1 = b2).
+    { intros i j h1 b1 h2 b2 E1 E2 E. apply (Cons (S i) (S j) h1 b1 h2 b2); auto. }
+    assert (Good1 : forall i h' b' w0, nth_error tmp i = Some (h', b') ->
+                    find_w (wls t1) (nth i wds 0) = Some w0 -> w_base w0 = b').
+    { intros i h' b' w0 E F. destruct (Z.eq_dec (nth i wds 0) v) as [Ev|Nv].
+      - rewrite Ev in F. destruct S5 as (w' & F' & B'). rewrite F' in F. injection F as <-.
+        assert (Eb : b' = b) by (apply (Cons (S i) 0%nat h' b' h b); auto).
+        subst b'. rewrite B'. destruct (find_w (wls t) v) as [w0|] eqn:F0; auto.
+        apply (Good 0%nat h b w0); auto.
+      - rewrite S6 in F by auto. apply (Good (S i) h' b' w0); auto. }
+    assert (Len1 : length wds = length tmp) by (cbn in Len; lia).
+    pose proof (IH wds t1 Len1 Pl Hd Ina1 Cons1 Good1) as X. cbv zeta in X.
+    destruct (restart tmp wds t1) as [t2 r2]. cbn [fst snd] in *.
+    destruct X as (R2 & G2 & P2).
+    split; [exact R2|]. split.
+    + intros h' N. cbn [map fst] in N. rewrite G2 by (intros I; apply N; right; exact I).
+      apply S4. intros ->. apply N. left; reflexivity.
+    + intros i h' b' E. destruct i as [|i].
+      * cbn in E. injection E as <- <-. rewrite G2 by exact Hn. rewrite S1, S3, S2.
+        split; auto. split; auto.
+        (* the list of v still has base b at the end: nothing re-bases it *)
+        destruct S5 as (w' & F' & B').
+        assert (Keep : forall tmp' wds' s0, (exists w1, find_w (wls s0) v = Some w1 /\ w_base w1 = w_base w') ->
+                       exists w2, find_w (wls (fst (restart tmp' wds' s0))) v = Some w2 /\ w_base w2 = w_base w').
+        { clear. induction tmp' as [|[h0 b0] tmp' IH']; intros wds' s0 Hx; cbn [restart]; auto.
+          set (v0 := match wds' with w :: _ => w | [] => -9 end).
+          assert (Y : exists w2, find_w (wls (fst (ev_start s0 h0 (e_cb (gete s0 h0)) b0 v0))) v = Some w2 /\
+                                 w_base w2 = w_base w').
+          { destruct Hx as (w1 & F1 & B1). unfold ev_start.
+            destruct (e_active (gete s0 h0)); [exists w1; auto|]. destruct (v0 <? 0); [exists w1; auto|].
+            cbn [fst]. set (s1 := match find_w (wls s0) v0 with Some _ => s0 | None => _ end).
+            assert (F1' : find_w (wls s1) v = Some w1).
+            { unfold s1. destruct (find_w (wls s0) v0); auto. cbn [wls set_wls]. rewrite find_app, F1. reflexivity. }
+            cbn [wls upd_e set_ehs set_wls]. rewrite find_upd_w by auto.
+            destruct (v =? v0); [rewrite F1'; cbn; eexists; split; [reflexivity|exact B1]|exists w1; auto]. }
+          destruct (ev_start s0 h0 (e_cb (gete s0 h0)) b0 v0) as [s1 r1]. cbn [fst] in Y.
+          destruct (r1 =? 0); [apply IH'; exact Y|exact Y]. }
+        destruct (Keep tmp wds t1 (ex_intro _ w' (conj F' eq_refl))) as (w2 & F2 & B2).
+        assert (Et : fst (restart tmp wds t1) = t2) by (rewrite <- (surjective_pairing (restart tmp wds t1)) in *; auto).
+        exists w2. split; [|rewrite B2, B'; destruct (find_w (wls t) v) as [w0|] eqn:F0; auto;
+                            apply (Good 0%nat h b w0); auto].
+        exact F2.
+      * cbn in E. destruct (P2 i h' b' E) as (A2 & C2 & W2).
+        assert (N : h' <> h).
+        { intros ->. apply Hn. apply in_map_iff. exists (h, b'). split; auto. eapply nth_error_In; eauto. }
+        split; auto. split; [rewrite C2; rewrite S4; auto|exact W2].
 Qed.
